@@ -30,6 +30,12 @@ fn dur_lattice_build() -> Vec<i128> {
             }
         }
     }
+    // half centuries: the fixed points of the mirror map ns -> one century - ns (where "x and its mirror image" is x itself)
+    for k in [-32768i128, -3, -2, -1, 0, 1, 2, 32767] {
+        for d in [-1i128, 0, 1] {
+            v.push(k * NPC + NPC / 2 + d);
+        }
+    }
     for p in [1i128 << 53, 1 << 63, 1 << 64, i64::MAX as i128, 1 << 62, 1 << 52, 1 << 31, 1 << 32] {
         for d in [-1i128, 0, 1] {
             v.push(p + d);
